@@ -277,7 +277,19 @@ func (r *Report) absorb(hr *HarnessResult, outDir string, prog *ssa.Program, sp 
 		sort.Strings(efails)
 		nf := append([]string{}, out.Fails...)
 		sort.Strings(nf)
-		if strings.Join(efails, "|") != strings.Join(nf, "|") || epanic != (out.Panic != "") || out.Outside {
+		// a witness taken from an early obligation may violate an assumption made later in the harness: then both
+		// sides must say so (the native run aborts at the assumption, the engine evaluates it to false)
+		eOutside := false
+		for _, as := range chr.assumes {
+			if as.isFalse() || (!as.isConst() && evalTerm(as, map[string]uint64{}, map[int]uint64{}) == 0) {
+				eOutside = true
+			}
+		}
+		if out.Outside && eOutside {
+			r.validated++
+			continue
+		}
+		if strings.Join(efails, "|") != strings.Join(nf, "|") || epanic != (out.Panic != "") || out.Outside != eOutside {
 			r.mismatches = append(r.mismatches, fmt.Sprintf("%s: engine and native run disagree on witness %v: engine fails=%v panic=%v; native fails=%v panic=%q outside=%v", hr.Name, w.Pretty, efails, epanic, nf, out.Panic, out.Outside))
 			continue
 		}
